@@ -101,6 +101,61 @@ func (st *State) specLoad(env *specEnv, addr string, T types.Type) Value {
 	return v
 }
 
+// quantTerm builds a quantified formula. A universal quantifier directly over another one
+// is merged into one binder, and the solver is given a trigger when the body applies a
+// specification function to all bound variables (otherwise it picks its own, which for
+// byte-string terms such as cat(be64(i), be16(h)) means one instance per PAIR of terms).
+func (st *State) quantTerm(op, name, sort, body string) string {
+	vars := [][2]string{{name, sort}}
+	if op == "forall" && strings.HasPrefix(body, "(forall ((q_") {
+		// (forall ((a A) (b B)) X): take its binders over
+		if parts := splitTop(body[1 : len(body)-1]); len(parts) == 3 && len(parts[1]) > 2 {
+			ok := true
+			var more [][2]string
+			for _, b := range splitTop(parts[1][1 : len(parts[1])-1]) {
+				p := splitTop(b[1 : len(b)-1])
+				if len(p) != 2 {
+					ok = false
+					break
+				}
+				more = append(more, [2]string{p[0], p[1]})
+			}
+			if ok && !strings.HasPrefix(parts[2], "(! ") {
+				vars = append(vars, more...)
+				body = parts[2]
+			}
+		}
+	}
+	var bl []string
+	for _, v := range vars {
+		bl = append(bl, "("+v[0]+" "+v[1]+")")
+	}
+	if op == "forall" && len(vars) >= 2 {
+		heads := map[string]bool{}
+		for n := range st.eng.cs.Specs {
+			heads[n] = true
+		}
+		apps := map[string][]string{}
+		collectApps(body, heads, apps)
+		best := ""
+		for t := range apps {
+			all := true
+			for _, v := range vars {
+				if !strings.Contains(t, v[0]) {
+					all = false
+				}
+			}
+			if all && (best == "" || len(t) < len(best) || (len(t) == len(best) && t < best)) {
+				best = t
+			}
+		}
+		if best != "" {
+			return fmt.Sprintf("(forall (%s) (! %s :pattern (%s)))", strings.Join(bl, " "), body, best)
+		}
+	}
+	return fmt.Sprintf("(%s (%s) %s)", op, strings.Join(bl, " "), body)
+}
+
 func (st *State) withAgeFact(env *specEnv, v Value) Value {
 	if env.facts != nil {
 		if f := st.baseAgeFact(v.Term, v.S, true); f != "" {
@@ -256,6 +311,16 @@ func (st *State) evalSpec(e *SExpr, env *specEnv) Value {
 			keep = append(keep, (*env.facts)[:nFacts]...)
 			for _, f := range (*env.facts)[nFacts:] {
 				if strings.Contains(f, name) {
+					if !strings.HasPrefix(f, "(= (") && !strings.HasPrefix(f, "(forall ((") {
+						// an age fact about a read under the binder: quantified it would match its
+						// own instances (rid of a reference read from the bound object): left out
+						continue
+					}
+					if recursesOnBound(f, name) {
+						// an unfolding that recurses on the bound variable would be a self-matching
+						// quantified axiom (instantiation loop): the instance is left out
+						continue
+					}
 					keep = append(keep, fmt.Sprintf("(forall ((%s %s)) %s)", name, s, f))
 				} else {
 					keep = append(keep, f)
@@ -278,7 +343,7 @@ func (st *State) evalSpec(e *SExpr, env *specEnv) Value {
 		if body.S != SBool {
 			env.fail("quantifier body not boolean")
 		}
-		return Value{T: types.Typ[types.Bool], S: SBool, Term: fmt.Sprintf("(%s ((%s %s)) %s)", e.Op, name, s, body.Term)}
+		return Value{T: types.Typ[types.Bool], S: SBool, Term: st.quantTerm(e.Op, name, string(s), body.Term)}
 	}
 	env.fail("cannot evaluate %s", e)
 	_ = te
